@@ -39,6 +39,8 @@ fn one<P: Prop>(data: &[u8]) {
         Ok(v) => v,
         Err(p) => fail("harness.check_panicked", "check does not panic", p.short()),
     };
+    // state of one iteration must not leak into the next
+    crate::obs::unpin_local();
     report(P::NAME, &case, v);
 }
 
